@@ -48,7 +48,10 @@ RULE_ADDED = (
               'ver is done. '
               ' '
               'Round 16: a device answering one hash query of blockchainState with another hash'
-              "'s identifier and datum. ")
+              "'s identifier and datum. "
+              ' '
+              'Round 17: heartbeats during which the device is not found for three or four atte'
+              'mpts in a row, then queries. ')
 RULE = RULE + " " + RULE_ADDED.strip()
 ASSUMPTIONS = [
     "simulated device + fake HID/TCP transports are trusted; firmware selectors are parsed "
@@ -387,7 +390,8 @@ def run_state(acc, cseed, platform, fw, nets, cmpf, Stack, SimDevice):
         reconn = rng.choice([None, None, None, 1, 2, 2])
         if reconn:
             s.bus.enumerate_skip = reconn - 1
-            s.bus.enumerate_fail = 1
+            # (not found once - or for three, four attempts in a row: seconds off the bus)
+            s.bus.enumerate_fail = rng.choice([1, 1, 3, 4])
             acc.count("uihb_with_a_failed_reconnection")
             case = dict(case, failed_reconnection=reconn)
         reply, exc, _ = s.request({"command": "uiHeartbeat", "version": 5, "udValue": ud.hex()})
@@ -448,6 +452,23 @@ def run_state(acc, cseed, platform, fw, nets, cmpf, Stack, SimDevice):
             acc.violation("uiHeartbeat-error-not-905", {"reply": reply}, case)
         elif trans == "normal" and exitb != "timeout" and not reconn:
             acc.violation("uiHeartbeat-refused-on-normal-transition", {"reply": reply}, case)
+        elif trans == "normal" and reconn:
+            # the heartbeat failed because the device could not be found again in time; it
+            # is back now, in the signer: the queries that follow report its data
+            dev.mode = MODE_SIGNER
+            dev.pending_link = None
+            s.bus.enumerate_fail = 0
+            s.bus.enumerate_skip = 0
+            for p_ in rng.sample(ALL_PATHS, 2):
+                r3, e3, _ = s.request({"command": "getPubKey", "version": 5, "keyId": p_})
+                acc.evaluations += 1
+                acc.count("queries_after_a_heartbeat_that_lost_the_device_for_a_while")
+                if e3 is not None or not isinstance(r3, dict) or r3.get("errorcode") != 0 or \
+                        r3.get("pubKey") != pubkeys[path_to_binary(p_)].hex():
+                    acc.violation("query-after-a-failed-heartbeat-not-answered-with-the-"
+                                  "devices-data", {"reply": r3, "exc": repr(e3), "path": p_},
+                                  case)
+                    return
 
 
 def history(acc, rng, s, dev, fw, cmpf, case, params_ok):
